@@ -207,7 +207,7 @@ class BoundedDict(DictMixin):
         @delete_cb: (optional) callback called when an element is removed
         """
         self._data = initialdata.copy() if initialdata else {}
-        self._min_size = min_size if min_size else max_size // 3
+        self._min_size = min_size if min_size else max(1, max_size // 3)
         self._max_size = max_size
         self._size = len(self._data)
         # Do not use collections.Counter as it is quite slow
